@@ -13,7 +13,7 @@ const char *stdout_branch_marker = nullptr;
 const double numeric_rel_tol = 0;
 const double conditioning_gate = 1e-2;
 
-enum { V_IMC = 1, V_MAP = 2, V_TWO = 4, V_GRID_SIMPLE = 8, V_BONDED = 16 };
+enum { V_IMC = 1, V_MAP = 2, V_TWO = 4, V_GRID_SIMPLE = 8, V_BONDED = 16, V_FORCE = 32, V_MAP2 = 64 };
 
 void tool_generate(Plan &p, sim::Rng &r, const std::string &) {
   p.variant = 0;
@@ -22,20 +22,23 @@ void tool_generate(Plan &p, sim::Rng &r, const std::string &) {
   if (r.chance(0.4)) p.variant |= V_TWO;
   if (r.chance(0.2)) p.variant |= V_GRID_SIMPLE;
   if (r.chance(0.4)) p.variant |= V_BONDED;
+  if (r.chance(0.25)) p.variant |= V_FORCE;
+  if (r.chance(0.5)) p.variant |= V_MAP2;
   p.block = r.chance(0.35) ? 1 + (int)r.below(3) : 0;
 }
 
 js::Value tool_variant_json(const Plan &p) {
   js::Value v = js::Value::obj();
   v.set("do_imc", (p.variant & V_IMC) != 0).set("mapping", (p.variant & V_MAP) != 0).set("two_types", (p.variant & V_TWO) != 0)
-   .set("nbsearch_simple", (p.variant & V_GRID_SIMPLE) != 0).set("bonded", (p.variant & V_BONDED) != 0).set("block_length", p.block);
+   .set("nbsearch_simple", (p.variant & V_GRID_SIMPLE) != 0).set("bonded", (p.variant & V_BONDED) != 0).set("mean_force", (p.variant & V_FORCE) != 0).set("two_cg_beads_with_cg_bond", (p.variant & V_MAP2) != 0).set("block_length", p.block);
   return v;
 }
 
-static std::string interaction(const std::string &name, const char *t1, const char *t2, double max, double step, bool imc, const char *group) {
+static std::string interaction(const std::string &name, const char *t1, const char *t2, double max, double step, bool imc, const char *group, bool force = false) {
   std::ostringstream o;
   o << " <non-bonded>\n  <name>" << name << "</name>\n  <type1>" << t1 << "</type1>\n  <type2>" << t2 << "</type2>\n  <min>0.0</min>\n  <max>" << max
     << "</max>\n  <step>" << step << "</step>\n";
+  if (force) o << "  <force>1</force>\n";
   if (imc) o << "  <inverse><imc><group>" << group << "</group></imc></inverse>\n";
   o << " </non-bonded>\n";
   return o.str();
@@ -76,7 +79,8 @@ void tool_build(const Plan &p, Case &c) {
   std::ostringstream opt;
   opt << "<cg>\n";
   if (p.variant & V_GRID_SIMPLE) opt << " <nbsearch>simple</nbsearch>\n";
-  opt << interaction("A-A", "A", "A", max, step, imc, "g1");
+  // mean force needs forces in the trajectory: LAMMPS dump only
+  opt << interaction("A-A", "A", "A", max, step, imc, "g1", (p.variant & V_FORCE) && p.fmt == 0);
   if (two) opt << interaction("A-B", "A", "B", 0.5, 0.1, imc, (p.case_seed & 64) ? "g1" : "g2");
   if (bonded && !map) {
     opt << " <bonded>\n  <name>bond1</name>\n  <min>0.0</min>\n  <max>0.3</max>\n  <step>0.01</step>\n";
@@ -96,15 +100,39 @@ void tool_build(const Plan &p, Case &c) {
   }
   c.args = {"--top", "{IN}/topol.xml", "--trj", "{IN}/" + trj, "--options", "{IN}/settings.xml"};
   if (map) {
+    bool map2 = (p.variant & V_MAP2) && p.chain >= 2;
     std::ostringstream m;
-    m << "<cg_molecule>\n <name>MOL</name>\n <ident>MOL</ident>\n <topology>\n  <cg_beads>\n   <cg_bead>\n    <name>A</name>\n    <type>A</type>\n    <mapping>M</mapping>\n    <beads>";
-    for (int b = 0; b < p.chain; b++) m << " 1:MOL:A" << b + 1;
-    m << " </beads>\n   </cg_bead>\n  </cg_beads>\n </topology>\n <maps>\n  <map>\n   <name>M</name>\n   <weights>";
-    for (int b = 0; b < p.chain; b++) m << " " << (b + 1);
-    m << " </weights>\n  </map>\n </maps>\n</cg_molecule>\n";
+    m << "<cg_molecule>\n <name>MOL</name>\n <ident>MOL</ident>\n <topology>\n  <cg_beads>\n";
+    int split = map2 ? (p.chain + 1) / 2 : p.chain;
+    auto bead = [&](const char *name, const char *mapname, int from, int to) {
+      m << "   <cg_bead>\n    <name>" << name << "</name>\n    <type>A</type>\n    <mapping>" << mapname << "</mapping>\n    <beads>";
+      for (int b = from; b < to; b++) m << " 1:MOL:A" << b + 1;
+      m << " </beads>\n   </cg_bead>\n";
+    };
+    bead("b1", "M1", 0, split);
+    if (map2) bead("b2", "M2", split, p.chain);
+    m << "  </cg_beads>\n";
+    if (map2) m << "  <cg_bonded>\n   <bond>\n    <name>cgbond</name>\n    <beads> b1 b2 </beads>\n   </bond>\n  </cg_bonded>\n";
+    m << " </topology>\n <maps>\n  <map>\n   <name>M1</name>\n   <weights>";
+    for (int b = 0; b < split; b++) m << " " << (b + 1);
+    m << " </weights>\n  </map>\n";
+    if (map2) {
+      m << "  <map>\n   <name>M2</name>\n   <weights>";
+      for (int b = split; b < p.chain; b++) m << " " << (b + 1);
+      m << " </weights>\n  </map>\n";
+    }
+    m << " </maps>\n</cg_molecule>\n";
     c.files["mapping.xml"] = m.str();
     c.args.push_back("--cg");
     c.args.push_back("{IN}/mapping.xml");
+    if (map2) {  // the bonded distribution of the coarse-grained bond
+      std::string st = c.files["settings.xml"];
+      std::string b = " <bonded>\n  <name>cgbond</name>\n  <min>0.0</min>\n  <max>0.6</max>\n  <step>0.02</step>\n";
+      if (imc) b += "  <inverse><imc><group>none</group></imc></inverse>\n";
+      b += " </bonded>\n";
+      st.insert(st.rfind("</cg>"), b);
+      c.files["settings.xml"] = st;
+    }
   }
   if (imc) c.args.push_back("--do-imc");
   if (p.block > 0) { c.args.push_back("--block-length"); c.args.push_back(std::to_string(p.block)); }
